@@ -121,6 +121,30 @@ def _worker(args: Tuple[str, float, str]) -> Dict[str, Any]:
                     r2 = _solve_one(o, timeout_s * 3)
                     if r2.status in ("sat", "unsat"):
                         o.result = r2
+        native_fail: Dict[str, Any] = {}
+        if changed and c.samples is not None and c.reify is None:
+            # the text changed and the contract carries native samples: look for a real input on which a clause fails -- it is the
+            # replay for obligations of this function that the solvers leave undecided
+            try:
+                from pyvc.replay import native_clause, materialize
+                from pyvc.loader import lookup
+                fi = lookup(target)
+                fn = materialize(fi)
+                for a in c.samples():
+                    ns = dict(a)
+                    try:
+                        ns["result"] = fn(*[a[x] for x in fi.argnames])
+                    except Exception:
+                        continue
+                    for cl in c.ensures:
+                        if cl.naming or cl.label in native_fail:
+                            continue
+                        ok, _why = native_clause(cl, ns)
+                        if ok is False:
+                            native_fail[cl.label] = {"inputs": {k: repr(v) for k, v in a.items() if k != "self"},
+                                                     "real_result": repr(ns["result"])}
+            except Exception as e:   # a sample generator that breaks on the changed tree gives no input, nothing else
+                native_fail = {}
         obs = []
         confirmed: Dict[Any, str] = {}
         attempts: Dict[Any, int] = {}
@@ -153,7 +177,7 @@ def _worker(args: Tuple[str, float, str]) -> Dict[str, Any]:
                 "infeasible": rep.infeasible, "seconds": time.time() - t0, "obligations": obs,
                 "calls_by_contract": rep.calls_by_contract, "inlined": rep.inlined, "trusted": c.trusted,
                 "src_sha": src_sha, "src_changed": changed, "loops": loops, "loops_changed": loops_changed,
-                "pre_witness": rep.pre_witness, "partial_raises": [list(x) for x in getattr(rep, "partial_raises", [])]}
+                "native_fail": native_fail, "pre_witness": rep.pre_witness, "partial_raises": [list(x) for x in getattr(rep, "partial_raises", [])]}
     except Exception as e:
         return {"target": target, "status": "error", "reason": f"{type(e).__name__}: {e}\n{traceback.format_exc()[-1200:]}",
                 "paths": 0, "infeasible": 0, "seconds": time.time() - t0, "obligations": [], "calls_by_contract": [],
@@ -254,6 +278,8 @@ def run_property(pid: str, tier: str, seed: int) -> int:
                 if r.get("src_changed") and not r.get("loops_changed") and base.get("labels", {}).get(lab) == "unsat":
                     # discharged on the baseline tree, the function's text has changed since, and the obligation is no
                     # longer provable (after a second attempt with a longer budget): reported, without an input
+                    nf = r.get("native_fail") or {}
+                    hit = nf.get(o["label"].split("#")[0]) if o["kind"] == "post" else (next(iter(nf.items()))[1] if nf else None)
                     fname = ("regressed_" + o["name"].replace("/", "_").replace(":", "_").replace("[", ".").replace("]", "")
                              .replace("@", "."))[-150:]
                     path = os.path.join(REPLAYS, pid, fname + ".json")
@@ -263,10 +289,12 @@ def run_property(pid: str, tier: str, seed: int) -> int:
                                "now": {"function_text_hash": r.get("src_sha")},
                                "note": "every obligation of this clause was discharged on the baseline tree; the text of the function "
                                        "(or of a function inlined into it) has changed and the solvers can no longer prove it "
-                                       "(no counter-model either): no failing input is available"},
+                                       "(no counter-model either)" + (": a native sample of the contract fails a clause on the real function"
+                                                                        if hit else ": no failing input is available"),
+                               "replay": ({"status": "violation", **hit} if hit else {"status": "no-input"})},
                               open(path, "w"), indent=1, default=str)
                     if not any(pth == path for pth, _ in violations):
-                        violations.append((path, " no-failing-input-found"))
+                        violations.append((path, "" if hit else " no-failing-input-found"))
                     regressed.append(o["name"])
                 else:
                     undecided.append({"obligation": o["name"], "reason": o["reason"] or "solver unknown/timeout"})
